@@ -64,6 +64,17 @@ class Engine(BaseEngine):
         for n in ([65535, 65536, 70001] if tier == "quick" else [65534, 65535, 65536, 65537, 70001, 131072, 200000]):
             out.append(("large-content", "sign n:1 n:1000 %s %s %s" % (C.ttags([[b"t", b"x"]]), C.tb(bytes([97 + n % 7]) * n), C.tb(sk))))
         out.append(("large-content", "sign n:1 n:1000 %s %s %s" % (C.ttags([[b"t", b"y" * 60000]]), C.tb(b"z" * 66000), C.tb(sk))))
+        # multi-byte characters straddling every power-of-two block size a chunked serialiser could use (256 .. 65536 bytes):
+        # the character starts 1, 2 or 3 bytes before the boundary, in the content and in a tag string
+        for blk in ([4096, 16384, 65536] if tier == "quick" else [256, 1024, 4096, 8192, 16384, 32768, 65536]):
+            for ch in ("\u00e9", "\u20ac", "\U0001f600"):
+                enc = ch.encode()
+                for back in range(1, len(enc)):
+                    for mult in ((1,) if tier == "quick" else (1, 2, 3)):
+                        text = b"a" * (blk * mult - back) + enc + b"b" * 20
+                        out.append(("chunk-boundary", "sign n:1 n:1000 %s %s %s" % (C.ttags([[b"t", b"x"]]), C.tb(text), C.tb(sk))))
+            text = b"a" * (blk - 1) + "\u00e9".encode() + b"b"
+            out.append(("chunk-boundary", "sign n:1 n:1000 %s %s %s" % (C.ttags([[b"t", text]] if blk < 60000 else [[b"t", b"x"]]), C.tb(b"c"), C.tb(sk))))
         for js in fixtures():
             out.append(("fixture", "verifyjson " + C.tb(js)))
             i = js.find(b'"content":"') + 11
@@ -94,7 +105,7 @@ class Engine(BaseEngine):
         m = C.kv(model_out)
         if o.endswith("impl=panic") or "r" not in i:
             return Verdict(oracle_ok=False, cls="panics", detail=o[:80], outcome="panic")
-        if gcls in ("signed", "char", "block-boundary", "large-content"):
+        if gcls in ("signed", "char", "block-boundary", "large-content", "chunk-boundary"):
             if i["r"] != "ok":
                 return Verdict(oracle_ok=False, cls="sign-fails", detail="sign_new failed: %s" % i["r"], outcome="err")
             if i["verify"] != "true":
